@@ -661,6 +661,10 @@ class Parser:
                 if tok.txt == '{':
                     # {...} protects space and ','
                     seq = self.arg_buffer(buf, 0).all()
+                    if buf.cur() is tok:
+                        # no closing }: arg_buffer() has pushed back all
+                        # tokens (issue 23), skip the { to ensure progress
+                        buf.next()
                     if len(seq) == 1 and type(seq[0]) is defs.VoidToken:
                         # this was an empty {}
                         seq = []
